@@ -200,6 +200,11 @@ def nps_abstract(ex, st, args, kwargs, node):
     import z3
     from pyvc import values as V
     from pyvc.lib import as_seglist, _not_dot, _memo, _skey
+    if type(args[0]).__name__ == "VPList":
+        # string-level split lists (pyvc/plist.py) have no model of the segment algorithm: the call
+        # must be unreachable under the caller's precondition (else the contract is undecided)
+        ex.unreachable_or_undecided(st, "normalize_path_segments on a string-level split list", node)
+        return
     seg = as_seglist(st.ctx, args[0]).view
     key = ("nps",) + _skey(seg)
     m = _memo(st.ctx)
